@@ -213,7 +213,9 @@ def encode_object(value):
     elif isinstance(value, dict):
       if not all(isinstance(key, str) for key in value):
         raise UnmarshallableError("Dict with non-string keys")
-      return ['O', {key: encode_object(val) for key, val in value.items()}]
+      # Keys may be instances of str subclasses; cast to the primitive type to ensure they are
+      # marshallable.
+      return ['O', {str(key): encode_object(val) for key, val in value.items()}]
     elif value == _pending_sentinel:
       return ['P']
     elif value == _censored_sentinel:
